@@ -72,6 +72,11 @@ func (k Keeper) RequestModuleService(
 		return err
 	}
 
+	// the batch has been issued and answered within the transaction: it must not be started again at the
+	// end of the block; queue its expiration instead, which cleans it up and completes the context
+	k.DeleteNewRequestBatch(ctx, reqContextID, ctx.BlockHeight())
+	k.AddRequestBatchExpiration(ctx, reqContextID, ctx.BlockHeight()+requestContext.Timeout)
+
 	ctx.EventManager().EmitEvents(sdk.Events{
 		sdk.NewEvent(
 			sdk.EventTypeMessage,
